@@ -489,6 +489,11 @@ class FitBase(FileIOMixin, object):
             raise ValueError("Fit data and cost function are not compatible: %s" % _reason)
         self._set_new_parametric_model()
         self._param_model._on_error_change_callback = self._on_error_change
+        # model values and all uncertainties may depend on the data container that was just replaced
+        self._fitter.reset_minimizer()
+        self._nexus.get(self._MODEL_NAME).mark_for_update()
+        for _error_name in self._BASIC_ERROR_NAMES:
+            self._nexus.get(_error_name).mark_for_update()
 
     @property
     def data_error(self):
